@@ -422,6 +422,18 @@ Definition drop_handle (f : fstate) (i : N) : fstate :=
   | _ => f
   end.
 
+(* Drop swallows an error of the final flush, but a panic inside it still unwinds *)
+Definition drop_result (f : fstate) (i : N) : res value :=
+  match nthN (hs f) i with
+  | Some (Some h) =>
+    match snd (flush_changes' h (cs f)) with
+    | Panic n => Panic n
+    | OutOfFuel => OutOfFuel
+    | _ => Ok VUnit
+    end
+  | _ => Ok VUnit
+  end.
+
 Fixpoint drop_all (fuel : nat) (f : fstate) (i : N) : fstate :=
   match fuel with
   | O => f
@@ -468,7 +480,7 @@ Definition step (f : fstate) (now : N) (o : op) : fstate * res value :=
   | OHFlush i => with_handle f i h_flush' (fun _ => VUnit)
   | OHLen i => with_handle f i (fun h s => (s, (h, Ok (h_total h)))) VNum
   | OHPos i => with_handle f i (fun h s => (s, (h, Ok (h_position h)))) VNum
-  | OHDrop i => (drop_handle f i, Ok VUnit)
+  | OHDrop i => (drop_handle f i, drop_result f i)
   | OCat p => with_cs f (api_cat p (maxbuf f)) VBytes
   | OReopen strict =>
       let f1 := drop_all (length (hs f)) f 0 in
